@@ -38,3 +38,57 @@ Theorem canonical_graph_unique :
     end.
 Proof. exact (@CanonView.canonical_graph_unique). Qed.
 Print Assumptions canonical_graph_unique.
+
+(* ------------------------------------------------------------------------------------------------ *)
+(* The quantifier closed over the readers (Proofs/EndToEnd2.v): wfg and nozero are theorems about
+   every graph the molfile entry point returns (ReadersNoZero.read_molfile_wfg / read_molfile_nozero). *)
+Require Import Text Parse Molfile.
+Require V2000 EndToEnd2.
+
+(* Two accepted molfile texts (V2000 or V3000) whose graphs are one molecule (SameMol f: f renames the
+   atoms, keeps element / mass / radical, maps the bond set onto the bond set): same canonical view. *)
+Theorem C04_molfile_texts_canonical_unique :
+  forall canon, H2 canon ->
+  forall (s s' : text) (g g' : mol rpay Z) (f : N -> N),
+    V2000.read_molfile s = ok g -> V2000.read_molfile s' = ok g' -> SameMol f g g' ->
+    match canonicalize canon g, canonicalize canon g' with
+    | Some c, Some c' => SameView c c'
+    | None, None => True
+    | _, _ => False
+    end.
+Proof. exact (@EndToEnd2.molfile_texts_canonical_unique). Qed.
+Print Assumptions C04_molfile_texts_canonical_unique.
+
+Theorem C04_molfile_texts_classes_edges_unique :
+  forall canon, H2 canon ->
+  forall (s s' : text) (g g' : mol rpay Z) (f : N -> N),
+    V2000.read_molfile s = ok g -> V2000.read_molfile s' = ok g' -> SameMol f g g' ->
+    match canonicalize canon g, canonicalize canon g' with
+    | Some c, Some c' => Permutation (class_view c) (class_view c') /\ Permutation (edge_view c) (edge_view c')
+    | None, None => True
+    | _, _ => False
+    end.
+Proof. exact (@EndToEnd2.molfile_texts_classes_edges_unique). Qed.
+Print Assumptions C04_molfile_texts_classes_edges_unique.
+
+(* With at least one atom both canonical graphs exist (C15), so no case distinction is left. *)
+Theorem C04_molfile_texts_canonical_unique_total :
+  forall canon, H2 canon ->
+  forall (s s' : text) (g g' : mol rpay Z) (f : N -> N),
+    V2000.read_molfile s = ok g -> V2000.read_molfile s' = ok g' -> SameMol f g g' -> atoms g <> nil ->
+    exists c c', canonicalize canon g = Some c /\ canonicalize canon g' = Some c' /\ SameView c c'.
+Proof. exact (@EndToEnd2.molfile_texts_canonical_unique_total). Qed.
+Print Assumptions C04_molfile_texts_canonical_unique_total.
+
+(* A molfile text and a TUCAN string describing one molecule. *)
+Theorem C04_molfile_text_string_canonical_unique :
+  forall canon, H2 canon ->
+  forall (s t0 : text) (g : mol rpay Z) (g' : mol unit unit) (f : N -> N),
+    V2000.read_molfile s = ok g -> ref_parse t0 = inr g' -> SameMol f g g' ->
+    match canonicalize canon g, canonicalize canon g' with
+    | Some c, Some c' => SameView c c'
+    | None, None => True
+    | _, _ => False
+    end.
+Proof. exact (@EndToEnd2.molfile_text_string_canonical_unique). Qed.
+Print Assumptions C04_molfile_text_string_canonical_unique.
